@@ -30,7 +30,13 @@ type c15Case struct {
 	Msg      string `json:"msg_hex"`
 	Settings int    `json:"settings"` // bit mask as in c09Settings
 	Variant  string `json:"variant,omitempty"`
+	Reuse    bool   `json:"reuse,omitempty"` // the Message object parsed another (long, defective) message before
 }
+
+// c15Predecessor: a long message with a group, signature fields, a duplicate and an undefined tag; what it leaves
+// behind in a Message object must not influence the validation of the next message parsed into it.
+var c15Predecessor = fixscan.Build([]fixscan.Field{{8, "FIX.4.4"}, {35, "D"}, {49, "A"}, {56, "B"}, {34, "7"}, {52, "20240101-00:00:00"}, {50, "S"}, {11, "id"}, {11, "id2"}, {453, "2"}, {448, "P1"}, {447, "D"}, {452, "1"},
+	{448, "P2"}, {447, "D"}, {452, "2"}, {55, "SYM"}, {54, "1"}, {4999, "zz"}, {38, "100"}, {40, "2"}, {44, "1.5"}, {58, ""}, {59, "0"}, {93, "4"}, {89, "ABCD"}})
 
 type c15Exp struct {
 	accept  bool
@@ -209,9 +215,15 @@ func c15Validate(cs c15Case) (reason, refTag int, rejected bool, parseErr error)
 		if cs.Dict == "FIXT11" {
 			appd = c13Dicts["FIX50SP2"]
 		}
+		if cs.Reuse {
+			_ = quickfix.ParseMessageWithDataDictionary(msg, bytes.NewBuffer(append([]byte{}, c15Predecessor...)), c13Dicts["FIXT11"], appd)
+		}
 		parseErr = quickfix.ParseMessageWithDataDictionary(msg, bytes.NewBuffer(raw), c13Dicts["FIXT11"], appd)
 		v = quickfix.NewValidator(st, appd, c13Dicts["FIXT11"])
 	} else {
+		if cs.Reuse {
+			_ = quickfix.ParseMessageWithDataDictionary(msg, bytes.NewBuffer(append([]byte{}, c15Predecessor...)), nil, app)
+		}
 		parseErr = quickfix.ParseMessageWithDataDictionary(msg, bytes.NewBuffer(raw), nil, app)
 		v = quickfix.NewValidator(st, app, nil)
 	}
@@ -334,6 +346,9 @@ func c15EvalInner(cs c15Case) (string, string) {
 	raw, _ := hex.DecodeString(cs.Msg)
 	reason, refTag, rejected, perr := c15Validate(cs)
 	ctx := fmt.Sprintf("%s/%s defect=%q tag=%d settings=%+v variant=%s: %s", cs.Dict, cs.MsgType, cs.Defect, cs.Tag, c09Settings[cs.Settings], cs.Variant, fixscan.Pretty(raw))
+	if cs.Reuse {
+		ctx += " (parsed into a Message that had parsed another message before)"
+	}
 	if perr != nil {
 		return "C15/engine-unparsable", perr.Error() + " | " + ctx
 	}
@@ -393,7 +408,7 @@ func runC15(c *core.Ctx) {
 		c.EngineError(err.Error())
 		return
 	}
-	c.SetRule("for every message type of every shipped dictionary: conforming messages (required-only; plus each optional top-level field singly; plus each group with 1 and 2 entries) and every single-defect mutant (each required field removed; undefined tags <5000 and >=5000 at the body boundaries; each typed field with an ill-typed value; each enumerated field with a non-member; each group count +-1 and 0 with entries following; group members swapped; every optional header field (enumerated ones with each value) conforming, ill-typed and out of enumeration; header field in body; body field after a trailer field; each field duplicated; each value emptied; unknown MsgType), judged under all 32 combinations of validator settings")
+	c.SetRule("for every message type of every shipped dictionary: conforming messages (required-only; plus each optional top-level field singly; plus each group with 1 and 2 entries) and every single-defect mutant (each required field removed; undefined tags <5000 and >=5000 at the body boundaries; each typed field with an ill-typed value; each enumerated field with a non-member; each group count +-1 and 0 with entries following; group members swapped; every optional header field (enumerated ones with each value) conforming, ill-typed and out of enumeration; header field in body; body field after a trailer field; each field duplicated; each value emptied; unknown MsgType), judged under all 32 combinations of validator settings; under the default and the all-off settings also parsed into a Message object that parsed a long defective message before")
 	c.Assume("expected reason/tag per defect kind follow the FIX session reject reasons; where the pipeline legitimately reports an equally specific rule first the oracle is set-valued (ill-typed value of an enumerated field: 5 or 6; swapped group members: 15,16,1,2 or 13)",
 		"message types whose MsgType is not in the transport dictionary's enumeration are not conforming and are skipped", "XmlDataLen/XmlData and other LENGTH/DATA pairs are not used as optional singles")
 	settingsList := []int{}
@@ -467,6 +482,9 @@ func runC15(c *core.Ctx) {
 				raw := hex.EncodeToString(fixscan.Build(fields))
 				for _, si := range settingsList {
 					jobs <- c15Case{Dict: dn, MsgType: m.MsgType, Defect: defect, Tag: tag, Msg: raw, Settings: si, Variant: variant}
+					if si == def || si == 0 {
+						jobs <- c15Case{Dict: dn, MsgType: m.MsgType, Defect: defect, Tag: tag, Msg: raw, Settings: si, Variant: variant, Reuse: true}
+					}
 				}
 			}
 			base := g.message(m.MsgType, g.body(m, nil, 1))
